@@ -140,6 +140,8 @@ PKG_PAIRS = [
            _D + '\\begin{document}\\tableofcontents\\section{Wq1x}\\begin{table}Wq2x\\caption{Wq3x}\\end{table}\\begin{thebibliography}{9}\\bibitem{zk}Wq4x\\end{thebibliography}\\end{document}'),
  ('float', _D + '\\usepackage{float}\\newfloat{zqprog}{tbp}{lop}\\floatname{zqprog}{Program}\\begin{document}\\begin{zqprog}Wq1x\\caption{Wq2x}\\end{zqprog}\\end{document}',
            _D + '\\usepackage{float}\\begin{document}\\begin{figure}[H]Wq1x\\caption{Wq2x}\\end{figure}\\end{document}'),
+ ('alltt', _D + '\\usepackage{alltt}\\begin{document}\\begin{alltt}\nWq1x \\catcode`\\$=3 \\catcode`\\%=14 \\makeatletter $a$ \\textbf{Wq2x}\n\\end{alltt}\\end{document}',
+           _D + '\\usepackage{alltt}\\begin{document}\\begin{alltt}\necho $HOME and $PATH 100% a@b \\textbf{Wq1x} {Wq2x}\n\\end{alltt}Wq3x $x$ 50\\% \\end{document}'),
  ('listings', _D + '\\usepackage{listings}\\lstset{language=Python,numbers=left}\\begin{document}\\begin{lstlisting}\nfor x in y: pass\n\\end{lstlisting}\\end{document}',
            _D + '\\usepackage{listings}\\begin{document}\\begin{lstlisting}\nfor x in y: pass\n\\end{lstlisting}\\lstinline|a b|\\end{document}'),
  ('fancyvrb', _D + '\\usepackage{fancyvrb}\\DefineVerbatimEnvironment{zqv}{Verbatim}{numbers=left}\\fvset{frame=single}\\begin{document}\\begin{zqv}\nWq1x\n\\end{zqv}\\end{document}',
